@@ -392,13 +392,18 @@ DetachAuth(e) == e.vf = "ok" /\ (e.by = e.p \/ e.by = e.a)    \* the pool's or t
 BeginAttach(s, b) ==
     /\ Idle(s)
     /\ act' = [op |-> "BeginAttach", s |-> s, b |-> b]
-    /\ IF b = <<>> \/ (\E i \in DOMAIN b : ~AttachAuth(b[i])) \/ (\E i \in DOMAIN b : b[i].p \notin pex)
+    /\ IF b = <<>> \/ (\E i \in DOMAIN b : ~AttachAuth(b[i]))
        THEN Reject(s, "attach")
-       ELSE /\ att' = ApplyAttach(att, b, 1)
-            /\ Final(s, "attach", OkR)
-            /\ calls' = <<"AT">>
-            /\ reply' = NoneR
-            /\ UNCHANGED <<rev, sigs, roots, stored, acct, pool, pex, renewed, lock>>
+       ELSE IF \E i \in DOMAIN b : b[i].p \notin pex      \* the contractor refuses the whole batch
+            THEN /\ Final(s, "attach", RejR)
+                 /\ calls' = <<"AT-">>
+                 /\ reply' = NoneR
+                 /\ UNCHANGED <<data, lock>>
+            ELSE /\ att' = ApplyAttach(att, b, 1)
+                 /\ Final(s, "attach", OkR)
+                 /\ calls' = <<"AT">>
+                 /\ reply' = NoneR
+                 /\ UNCHANGED <<rev, sigs, roots, stored, acct, pool, pex, renewed, lock>>
 
 BeginDetach(s, b) ==
     /\ Idle(s)
